@@ -14,6 +14,9 @@ MAP = [  # (substring of the commit subject, property)
  ("None return value of complex type", "C02"), ("ModelBase.to_bytes", "C02"),
  ("null member of complex type", "C02"), ("members of a class used more than once", "C03"),
  ("strict_arrays rejected arrays", "C03"), ("SOAP 1.2 fault whose detail dict", "C09"),
+ ("order of schema types and xs:import", "C07"), ("WSDL header and fault message references", "C07"),
+ ("every operation was put into the last wsdl:portType", "C07"),
+ ("global element of a header or fault class", "C07"),
  ("out-of-range date/time fields", "C10"), ("occurrence limits of multi-valued members", "C05"),
  ("explicit null for a non-nillable multi-valued", "C05"), ("integer text like", "C05"),
  ("double text like", "C05"), ("decimal text like", "C05"), ("silently read as boolean False", "C05"),
